@@ -17,6 +17,8 @@ import (
 	"fmt"
 	"hash/fnv"
 	"math/rand"
+	"os"
+	"path/filepath"
 	"runtime"
 	"sort"
 	"strings"
@@ -595,9 +597,37 @@ func serverScripts(cfg peer.Policy, quick bool) []spec {
 // resumed handshakes are emitted as Coq cases once Model/Handshake.v covers them
 const emitResumed = true
 
+// runCorpus replays the minimised past disagreements kept in /verif/corpus/C03
+// (witnesses of the defects found so far) before anything is generated.
+func runCorpus(c *core.Ctx) {
+	exe, err := os.Executable()
+	if err != nil {
+		return
+	}
+	dir := filepath.Join(filepath.Dir(filepath.Dir(exe)), "corpus", "C03")
+	if d := os.Getenv("VERIF_CORPUS"); d != "" {
+		dir = d
+	}
+	files, _ := filepath.Glob(filepath.Join(dir, "*.json"))
+	sort.Strings(files)
+	for _, f := range files {
+		raw, err := os.ReadFile(f)
+		if err != nil {
+			continue
+		}
+		c.OracleCheck()
+		c.Evaluated(1)
+		c.Count("corpus")
+		if err := replay(json.RawMessage(raw)); err != nil {
+			c.OracleFail("c03-corpus", fmt.Sprintf("corpus case %s: %v", filepath.Base(f), err), json.RawMessage(raw))
+		}
+	}
+}
+
 func gen(c *core.Ctx) error {
 	t0 := time.Now()
 	peer.Quiet()
+	runCorpus(c)
 	lists := [][]string{{"CLAIMTOBE"}, {"FS"}, {"FS", "CLAIMTOBE"}, {"CLAIMTOBE", "PASSWORD"}, {"PASSWORD", "CLAIMTOBE", "FS"},
 		{"NONE"}, {"NONE", "CLAIMTOBE"}, {"KERBEROS", "BOGUS", "CLAIMTOBE"}}
 	var cfgs []peer.Policy
